@@ -412,7 +412,7 @@ func checkMain(args []string) int {
 		}
 		rf.Confirmed = confirmed
 		_, wasLocked := locked[o.Name]
-		if !wasLocked && (o.Safety || o.Kind == "overflow" || o.Kind == "fconv" || o.Kind == "shift" || strings.HasSuffix(o.Kind, "/complete") || strings.HasPrefix(o.Kind, "pre:") || o.Kind == "unordered-iteration") {
+		if !wasLocked && (o.Safety || o.Kind == "overflow" || o.Kind == "fconv" || o.Kind == "shift" || strings.HasSuffix(o.Kind, "/complete") || strings.HasPrefix(o.Kind, "pre:") || o.Kind == "unordered-iteration" || (o.Kind == "assert" && strings.Contains(o.Name, "/assert@recv"))) {
 			// per-instruction obligations (bounds, nil, division, explicit
 			// panic, overflow sweep) shift with every edit: they are locked
 			// as a class for every function that has locked obligations
